@@ -102,6 +102,11 @@ pub fn install_panic_hook() {
                 break;
             }
         }
+        // the orchestrator tells a panic that killed the process (not under `catch`) in the code under test from one
+        // of the harness by the last message left here
+        if let Ok(f) = std::env::var("CVH_LAST_PANIC") {
+            let _ = std::fs::write(f, format!("{} @ {}", msg, loc));
+        }
         LAST_PANIC.with(|p| *p.borrow_mut() = Some(if func.is_empty() { format!("{} @ {}", msg, loc) } else { format!("{} @ {} in {}", msg, loc, func) }));
     }));
 }
